@@ -1,1 +1,171 @@
-//! Reference peers (filled in below).
+//! Reference peers on real sockets, assembled from `refimpl` (configured only with the password strings):
+//! a reference Shadowsocks UDP client that talks to the real server, and a reference Shadowsocks UDP server that
+//! serves the real client. They let a case put chosen packet ids, replays and junk on the link.
+use crate::real::{Cred, Proto};
+use crate::refimpl::ss2022::{self, UdpClientPacket, UdpServerPacket};
+use crate::refimpl::{ss, Addr};
+use crate::refside::{ref_keys, RefKeys};
+use std::net::{Ipv4Addr, SocketAddr, SocketAddrV4, UdpSocket};
+use std::sync::atomic::{AtomicBool, Ordering};
+use std::sync::{Arc, Mutex};
+use std::time::{Duration, SystemTime, UNIX_EPOCH};
+
+pub fn now_secs() -> u64 {
+    SystemTime::now().duration_since(UNIX_EPOCH).map(|d| d.as_secs()).unwrap_or(0)
+}
+
+fn rand24() -> Vec<u8> {
+    // not security relevant: a distinct XChaCha nonce per reference packet
+    static CTR: std::sync::atomic::AtomicU64 = std::sync::atomic::AtomicU64::new(1);
+    let c = CTR.fetch_add(1, Ordering::Relaxed);
+    let mut h = blake3::Hasher::new();
+    h.update(&c.to_le_bytes());
+    h.update(&std::process::id().to_le_bytes());
+    h.update(&now_secs().to_le_bytes());
+    h.finalize().as_bytes()[..24].to_vec()
+}
+
+/// Reference Shadowsocks UDP client (2022 and legacy ciphers) speaking to the real server's UDP port.
+pub struct RefUdpClient {
+    pub sock: UdpSocket,
+    pub cred: Cred,
+    pub keys: RefKeys,
+    pub server: SocketAddr,
+    pub sid: u64,
+}
+
+impl RefUdpClient {
+    pub fn new(cred: &Cred, server_port: u16, sid: u64) -> Result<RefUdpClient, String> {
+        let sock = UdpSocket::bind(SocketAddrV4::new(Ipv4Addr::LOCALHOST, 0)).map_err(|e| e.to_string())?;
+        sock.set_read_timeout(Some(Duration::from_millis(40))).ok();
+        Ok(RefUdpClient { sock, cred: cred.clone(), keys: ref_keys(cred)?, server: SocketAddr::V4(SocketAddrV4::new(Ipv4Addr::LOCALHOST, server_port)), sid })
+    }
+
+    /// Wire bytes of one client datagram with the given packet id.
+    pub fn build(&self, pid: u64, target: &Addr, payload: &[u8]) -> Vec<u8> {
+        match self.cred.proto {
+            Proto::Ss22(c) => {
+                let p = UdpClientPacket { sid: self.sid, pid, typ: 0, ts: now_secs(), padding: vec![], addr: target.clone(), payload: payload.to_vec(), xnonce: if c.is_aes() { vec![] } else { rand24() } };
+                ss2022::encode_udp_client(c, &self.keys.client_upsk, &self.keys.client_ipsks, &p)
+            }
+            Proto::SsLegacy(l) => {
+                let salt = &blake3::hash(&[&pid.to_le_bytes()[..], &self.sid.to_le_bytes()[..], &rand24()].concat()).as_bytes()[..l.key_len()].to_vec();
+                ss::encode_datagram(l, &self.keys.legacy_key, salt, target, payload)
+            }
+            _ => vec![],
+        }
+    }
+
+    pub fn send_wire(&self, wire: &[u8]) {
+        let _ = self.sock.send_to(wire, self.server);
+    }
+
+    pub fn send(&self, pid: u64, target: &Addr, payload: &[u8]) -> Vec<u8> {
+        let w = self.build(pid, target, payload);
+        self.send_wire(&w);
+        w
+    }
+
+    /// Everything that arrives within `dur`, decoded with the reference: (server packet id, source label, payload).
+    pub fn recv_all(&self, dur: Duration) -> Vec<Result<(u64, Addr, Vec<u8>), String>> {
+        let t0 = std::time::Instant::now();
+        let mut out = vec![];
+        let mut buf = vec![0u8; 70000];
+        while t0.elapsed() < dur {
+            if let Ok((n, _)) = self.sock.recv_from(&mut buf) {
+                out.push(self.decode_reply(&buf[..n]));
+            }
+        }
+        out
+    }
+
+    pub fn decode_reply(&self, wire: &[u8]) -> Result<(u64, Addr, Vec<u8>), String> {
+        match self.cred.proto {
+            Proto::Ss22(c) => {
+                let d = ss2022::decode_udp_server(c, &self.keys.client_upsk, wire)?;
+                if d.pkt.client_sid != self.sid {
+                    return Err(format!("reply names client session {} instead of {}", d.pkt.client_sid, self.sid));
+                }
+                if d.pkt.typ != 1 {
+                    return Err(format!("reply type {}", d.pkt.typ));
+                }
+                Ok((d.pkt.pid, d.pkt.addr, d.pkt.payload))
+            }
+            Proto::SsLegacy(l) => {
+                let (a, p, _) = ss::decode_datagram(l, &self.keys.legacy_key, wire)?;
+                Ok((0, a, p))
+            }
+            _ => Err("not a shadowsocks credential".into()),
+        }
+    }
+}
+
+/// Reference Shadowsocks 2022 UDP *server* for the real client: decodes what the client sends and answers each
+/// datagram with replies whose packet ids the case chooses.
+pub struct RefUdpServer {
+    pub port: u16,
+    /// (client session id, packet id, target address, payload) of every datagram that decoded
+    pub got: Arc<Mutex<Vec<(u64, u64, Addr, Vec<u8>)>>>,
+    pub undecodable: Arc<Mutex<Vec<String>>>,
+    /// scripted reply packet ids: for the k-th decoded datagram, replies are sent with the ids in script[k] (in order)
+    stop: Arc<AtomicBool>,
+    handle: Option<std::thread::JoinHandle<()>>,
+}
+
+impl RefUdpServer {
+    /// `script[k]` = packet ids of the replies sent in answer to the k-th received datagram; the reply payload is
+    /// `reply_payload(k, j)` for the j-th reply. `ssid` is the server session id.
+    pub fn spawn(cred: &Cred, port: u16, ssid: u64, script: Vec<Vec<u64>>, reply_payload: fn(usize, usize, u64) -> Vec<u8>) -> Result<RefUdpServer, String> {
+        let Proto::Ss22(c) = cred.proto else { return Err("RefUdpServer needs a 2022 cipher".into()) };
+        let keys = ref_keys(cred)?;
+        let sock = UdpSocket::bind(SocketAddrV4::new(Ipv4Addr::LOCALHOST, port)).map_err(|e| format!("ref server bind: {}", e))?;
+        sock.set_read_timeout(Some(Duration::from_millis(30))).ok();
+        let got = Arc::new(Mutex::new(vec![]));
+        let undecodable = Arc::new(Mutex::new(vec![]));
+        let stop = Arc::new(AtomicBool::new(false));
+        let (g2, u2, s2) = (got.clone(), undecodable.clone(), stop.clone());
+        let handle = std::thread::spawn(move || {
+            let mut buf = vec![0u8; 70000];
+            let mut k = 0usize;
+            while !s2.load(Ordering::Relaxed) {
+                let Ok((n, from)) = sock.recv_from(&mut buf) else { continue };
+                match ss2022::decode_udp_client(c, &keys.server_psk, &keys.user_psks, &buf[..n]) {
+                    Ok(d) => {
+                        g2.lock().unwrap().push((d.pkt.sid, d.pkt.pid, d.pkt.addr.clone(), d.pkt.payload.clone()));
+                        let ids = script.get(k).cloned().unwrap_or_default();
+                        // replies are sealed under the key of the user that sent the datagram (or the single PSK)
+                        let key = keys.client_upsk.clone();
+                        for (j, pid) in ids.iter().enumerate() {
+                            let p = UdpServerPacket {
+                                ssid,
+                                pid: *pid,
+                                typ: 1,
+                                ts: now_secs(),
+                                client_sid: d.pkt.sid,
+                                padding: vec![],
+                                addr: d.pkt.addr.clone(),
+                                payload: reply_payload(k, j, *pid),
+                                xnonce: if c.is_aes() { vec![] } else { rand24() },
+                            };
+                            let w = ss2022::encode_udp_server(c, &key, &p);
+                            let _ = sock.send_to(&w, from);
+                            std::thread::sleep(Duration::from_millis(2));
+                        }
+                        k += 1;
+                    }
+                    Err(e) => u2.lock().unwrap().push(e),
+                }
+            }
+        });
+        Ok(RefUdpServer { port, got, undecodable, stop, handle: Some(handle) })
+    }
+}
+
+impl Drop for RefUdpServer {
+    fn drop(&mut self) {
+        self.stop.store(true, Ordering::Relaxed);
+        if let Some(h) = self.handle.take() {
+            let _ = h.join();
+        }
+    }
+}
